@@ -30,6 +30,7 @@ from collada.common import DaeBrokenRefError
 from collada.common import DaeError
 from collada.common import DaeMalformedError
 from collada.common import DaeObject
+from collada.common import DaeRawLoadErrors
 from collada.common import DaeUnsupportedError
 from collada.common import E
 from collada.common import tag
@@ -422,6 +423,8 @@ class Node(SceneNode):
                     children.append(n)
             except DaeError as ex:
                 collada.handleError(ex)
+            except DaeRawLoadErrors as ex:
+                collada.handleRawLoadError('scene node %s' % subnode.tag, ex)
 
         return Node(id, children, transforms, xmlnode=node, name=name)
 
